@@ -8,14 +8,18 @@ class STLExplainer(LTLExplainer, StlAstVisitor):
 
     def __init__(self):
         LTLExplainer.__init__(self)
+        # function returning the (begin, end) bounds of a timed node in samples
+        self.bounds = lambda node: (node.begin, node.end)
 
 
     def visit(self, element, args):
         return StlAstVisitor.visit(self, element, args)
 
 
-    def explain(self, spec):
+    def explain(self, spec, bounds=None):
         self.spec = spec
+        if bounds is not None:
+            self.bounds = bounds
         self.explanations = dict()
         for spec in self.spec.specs:
             top_signal = self.spec.results[spec]
@@ -27,9 +31,9 @@ class STLExplainer(LTLExplainer, StlAstVisitor):
         flag = args[1]
         op_signal = self.spec.results[element.children[0]]
         if flag:
-            op_intervals = explain_sat_timed_eventually(op_signal, intervals, element.begin, element.end)
+            op_intervals = explain_sat_timed_eventually(op_signal, intervals, *self.bounds(element))
         else:
-            op_intervals = explain_unsat_timed_eventually(op_signal, intervals, element.begin, element.end)
+            op_intervals = explain_unsat_timed_eventually(op_signal, intervals, *self.bounds(element))
         self.explanations[element.name] = intervals
         self.visit(element.children[0], [op_intervals, flag])
 
@@ -38,9 +42,9 @@ class STLExplainer(LTLExplainer, StlAstVisitor):
         flag = args[1]
         op_signal = self.spec.results[element.children[0]]
         if flag:
-            op_intervals = explain_sat_timed_always(op_signal, intervals, element.begin, element.end)
+            op_intervals = explain_sat_timed_always(op_signal, intervals, *self.bounds(element))
         else:
-            op_intervals = explain_unsat_timed_always(op_signal, intervals, element.begin, element.end)
+            op_intervals = explain_unsat_timed_always(op_signal, intervals, *self.bounds(element))
         self.explanations[element.name] = intervals
         self.visit(element.children[0], [op_intervals, flag])
 
@@ -52,9 +56,9 @@ class STLExplainer(LTLExplainer, StlAstVisitor):
         flag = args[1]
         op_signal = self.spec.results[element.children[0]]
         if flag:
-            op_intervals = explain_sat_timed_once(op_signal, intervals, element.begin, element.end)
+            op_intervals = explain_sat_timed_once(op_signal, intervals, *self.bounds(element))
         else:
-            op_intervals = explain_unsat_timed_once(op_signal, intervals, element.begin, element.end)
+            op_intervals = explain_unsat_timed_once(op_signal, intervals, *self.bounds(element))
         self.explanations[element.name] = intervals
         self.visit(element.children[0], [op_intervals, flag])
 
@@ -63,9 +67,9 @@ class STLExplainer(LTLExplainer, StlAstVisitor):
         flag = args[1]
         op_signal = self.spec.results[element.children[0]]
         if flag:
-            op_intervals = explain_sat_timed_historically(op_signal, intervals, element.begin, element.end)
+            op_intervals = explain_sat_timed_historically(op_signal, intervals, *self.bounds(element))
         else:
-            op_intervals = explain_unsat_timed_historically(op_signal, intervals, element.begin, element.end)
+            op_intervals = explain_unsat_timed_historically(op_signal, intervals, *self.bounds(element))
         self.explanations[element.name] = intervals
         self.visit(element.children[0], [op_intervals, flag])
 
